@@ -326,9 +326,12 @@ void mon_call_ret(proc *pr, int64_t ret)
     case OP_YIELD:
         if (ret == CMB_PROCESS_SUCCESS) {
             bool ok = false;
-            for (int i = 0; i < pr->ncs && !ok; i++) {       /* one of its timers carries the success code, is due now and has just fired (its event is gone) */
+            /* one of its timers carries the success code, is due now and has just fired (its event is gone); one that is certainly
+             * armed before one that an interrupt may have cleared (whose event is gone for that reason) */
+            for (int pass = 0; pass < 2 && !ok; pass++)
+            for (int i = 0; i < pr->ncs && !ok; i++) {
                 cause *c = &pr->cs[i];
-                if (c->kind == CK_TIMER && c->value == CMB_PROCESS_SUCCESS && (c->state == CS_ARMED || c->state == CS_MAYBE) && c->due == now && !cmb_event_is_scheduled(c->handle)) {
+                if (c->kind == CK_TIMER && c->value == CMB_PROCESS_SUCCESS && c->state == (pass == 0 ? CS_ARMED : CS_MAYBE) && c->due == now && !cmb_event_is_scheduled(c->handle)) {
                     c->state = CS_DELIVERED; ok = true; PROBE("c04.yield_ended_by_timer_with_success_code");
                     fired[nfired % MAXFIRED].h = c->handle; fired[nfired % MAXFIRED].t = now; nfired++;
                 }
